@@ -130,6 +130,12 @@ class World:
         return c
 
 
+JUNK = (b"HTTP/1.1 400 Bad Request\r\n\r\n", b"\n", b"ok\n",
+        b"Magic-Wormhole Dilation Handshake v1 Leader\n\n"[:-1] + b"x\n",
+        b"bad handshake\n", b"x" * 80 + b"\n",
+        b"impatient\n", b"Magic-Wormhole Dilation Handshake v0 Leader\n\n")
+
+
 class Corruptor:
     """Byte-offset manipulations on one direction of one link."""
 
@@ -156,6 +162,10 @@ class Corruptor:
                 return data[:i]
             if self.kind == "insert":
                 return data[:i] + b"\x00" + data[i:]
+            if self.kind == "junk_first":
+                # a junk line ahead of the genuine stream (delivered as a
+                # segment of its own: see the chunker in run_one)
+                return JUNK[self.value % len(JUNK)] + data
             if self.kind == "delete":
                 return data[:i] + data[i + 1:]
         return data
@@ -215,8 +225,12 @@ def sweep(tier):
 
 
 def configs(tier):
+    # the fifth: a junk line ahead of the genuine stream (a middlebox's
+    # error page, a stale relay reply), on transports whose send buffers
+    # drain when the scheduler says so and which may go on delivering what
+    # is in flight after loseConnection()
     return [{"fixed": False}, {"fixed": False}, {"fixed": False},
-            {"two_sessions": True}]
+            {"two_sessions": True}, {"fixed": False, "junk_first": True}]
 
 
 def run_two_sessions(seed, tape, opts):
@@ -392,8 +406,19 @@ def run_one(seed, tape, opts):
                              "ck"),
                    tape.choose(300, "coff") if tape.choose(2, "early") else
                    tape.choose(200000, "coff2"), 1 << tape.choose(8, "cbit")]
+    if opts.get("junk_first"):
+        corrupt = [tape.pick(("l2f", "f2l"), "cd"), "junk_first", 0,
+                   tape.choose(len(JUNK), "junk")]
+        sim.net.autoflush = False
+        sim.net.high_water = 1 << 20
+        sim.net.window = 1 << 30
+        if tape.choose(3, "ral"):
+            sim.net.read_after_lose = True
+            sim.note("probe.transport_reads_after_loseConnection")
     if corrupt:
-        cor[corrupt[0]] = Corruptor(corrupt[1], corrupt[2], corrupt[3] or 1)
+        cor[corrupt[0]] = Corruptor(corrupt[1], corrupt[2],
+                                    corrupt[3] if corrupt[1] == "junk_first"
+                                    else corrupt[3] or 1)
     l2 = {}
     tampered_links = []
 
@@ -419,6 +444,22 @@ def run_one(seed, tape, opts):
                     return out
                 if end.link.tamper is None:
                     end.link.tamper = tam
+                if corrupt and corrupt[1] == "junk_first":
+                    junk_len = len(JUNK[corrupt[3]])
+                    rx = end if corrupt[0] == "f2l" else end.peer
+                    base = rx.rx_count
+                    link = end.link
+
+                    def chunker(e, n, tape_):
+                        got = e.rx_count - base
+                        if e is rx and got < junk_len:
+                            return junk_len - got
+                        link.chunker = None
+                        try:
+                            return sim._chunk(e)
+                        finally:
+                            link.chunker = chunker
+                    link.chunker = chunker
     sim.on_end_made = end_made
     early = {"l2f": [], "f2l": []}
     if not opts.get("fixed") and not opts.get("wrong_psk"):
@@ -463,6 +504,22 @@ def run_one(seed, tape, opts):
         if getattr(mg, "early_error", None):
             V("C12.send_record_raised", "send_record accepts every record",
               "%s (sent in the selection turn) -> %r" % mg.early_error)
+
+    def rejected_selected():
+        # a manipulation inside the very first bytes of a direction (relay
+        # reply / prologue): its receiver never selects that connection
+        if not (corrupt and cor[corrupt[0]].fired and
+                corrupt[2] < len(PROLOGUE_FOLLOWER) - 1):
+            return
+        mg = MF if corrupt[0] == "l2f" else ML
+        c = mg.conn
+        if c is not None and c in l2 and l2[c].link in tampered_links:
+            V("C12.rejected_connection_selected", "a wrong prologue / wrong "
+              "relay reply causes the connection to be dropped without "
+              "anything from it reaching the manager", "%s selected the "
+              "connection whose %s stream was manipulated (%r) at offset %d; "
+              "topo %s" % (mg.name, corrupt[0], corrupt[1], corrupt[2], topo))
+    rejected_selected()
     if opts.get("wrong_psk") and (ML.made or MF.made):
         V("C12.wrong_key_selected", "a handshake not produced with the "
           "dilation key never reaches the manager", "L made=%d F made=%d" %
